@@ -248,6 +248,11 @@ class EncodeState:
                 odxraise(f"Illegal bit length for a float64 object ({bit_length})")
                 bit_length = 64
 
+            if not isinstance(internal_value, (int, float)):
+                odxraise(
+                    f"Internal value must be a floating point number, not "
+                    f"{type(internal_value).__name__}", EncodeError)
+
             raw_value = float(internal_value)
 
         # If the bit length is zero, encode an empty value
